@@ -229,16 +229,26 @@ def r02_3(ctx):
                    ast.unparse(v.args[0]) == 'self._index' and q.inside(st, dn, w0.stmt.body)]
             ok = bool(src) and ast.unparse(w0.stmt.test) == 'self._index in self._unsorted' and \
                 q.every_iteration_passes(st, w0, src)[0] and cfg.must_pass([w0], [n], src, skip_labels=('x',))[0]
+            if not ok and arg == 'self._unsorted.pop(self._index)':
+                # the popped value is appended directly
+                ok = ast.unparse(w0.stmt.test) == 'self._index in self._unsorted'
         else:
             ok = arg == O and q.has_guard(st, n, own, True)
         ctx.ob('R02.3', 'IMapIterator._set:item-released-only-at-its-index#L%d' % (c.lineno - st.node.lineno), ok, st, c,
                'appended under self._index == i, or popped from _unsorted at key self._index')
     park = [(dn, t) for (dn, t, v) in q.assigns(st, lambda t: t.startswith('self._unsorted[')) if ast.unparse(v) == O]
-    ok = bool(park) and all(ast.unparse(t.slice) == I and q.has_guard(st, dn, own, False) for (dn, t) in park)
+    direct = [c for (n, c) in apps if ast.unparse(c.args[0]) == O and
+              not any(q.inside(st, n, w.stmt.body) for w in cfg.where(lambda x: x.kind == 'loop'))]
+    # "every item goes through the buffer": parked unconditionally under its own index, never appended directly
+    always_parked = bool(park) and not direct and all(
+        ast.unparse(t.slice) == I and cfg.must_pass([cfg.entry], [cfg.exit], [dn], skip_labels=('x',))[0]
+        for (dn, t) in park)
+    ok = bool(park) and (always_parked or
+                         all(ast.unparse(t.slice) == I and q.has_guard(st, dn, own, False) for (dn, t) in park))
     ctx.ob('R02.3', 'IMapIterator._set:early-item-parked-under-its-own-index', ok, st, park[0][0] if park else None,
            'self._unsorted[i] = obj when i is not the next index')
     drains = [w for w in cfg.where(lambda n: n.kind == 'loop') if ast.unparse(w.stmt.test) == 'self._index in self._unsorted']
-    ok = bool(drains) and all(q.has_guard(st, w, own, True) for w in drains)
+    ok = bool(drains) and (always_parked or all(q.has_guard(st, w, own, True) for w in drains))
     ctx.ob('R02.3', 'IMapIterator._set:buffer-drained-while-next-is-present', ok, st, drains[0] if drains else None,
            'while self._index in self._unsorted: release it')
     nt = q.nodes_calling(st, 'self._cond.notify')
@@ -259,6 +269,12 @@ def r02_3(ctx):
             for nn in q.nodes_calling(mf, 'self._cond.notify'):
                 ok = rechecks or q.has_guard(mf, nn, done, True) or \
                     mf.cfg.must_pass([mf.cfg.entry], [nn], rel, skip_labels=('x',))[0]
+                if not ok and mf is st and always_parked:
+                    # the item was parked under i on every path: under `_index == i` (or `_index in _unsorted`) the
+                    # drain loop that precedes the wake-up runs at least once
+                    ok = (q.has_guard(mf, nn, own, True) or
+                          q.has_guard(mf, nn, 'self._index in self._unsorted', True)) and \
+                        any(mf.cfg.must_pass([mf.cfg.entry], [nn], [w], skip_labels=('x',))[0] for w in drains)
                 ctx.ob('R02.3', '%s.%s:no-wake-up-without-a-release#%d' % (cls_.name, name, q.line(nn) - mf.node.lineno),
                        ok, mf, nn,
                        'every path to notify() released an item or ends the sequence' if ok else
